@@ -135,3 +135,93 @@ Proof.
       change ([104; l; l; 104] ++ (c :: a0 :: a1 :: data) ++ [cs8 (c :: a0 :: a1 :: data); 22]) with ([104; l; l; 104; c; a0; a1] ++ data ++ [cs8 (c :: a0 :: a1 :: data); 22]).
       change (5 + 2) with (lenz [104; l; l; 104; c; a0; a1]). apply slice_mid.
 Qed.
+
+(* variable frame with PRM = 0 (a response with user data): fields, address and user data come back *)
+Ltac var_case_sec alen_ l c body f Ef Hudl Hsz :=
+  let N0 := fresh "N0" in let N1 := fresh "N1" in let N2 := fresh "N2" in let N4 := fresh "N4" in
+  let Lf := fresh "Lf" in let SL := fresh "SL" in let NC := fresh "NC" in
+  assert (N0 : nthz f 0 = 104) by (rewrite Ef; reflexivity);
+  assert (N1 : nthz f 1 = l) by (rewrite Ef; reflexivity);
+  assert (N2 : nthz f 2 = l) by (rewrite Ef; reflexivity);
+  assert (N4 : nthz f 4 = c) by (rewrite Ef; reflexivity);
+  assert (Lf : lenz f = l + 6) by (rewrite Ef; lz; unfold l; lia);
+  assert (SL : slice f 4 (5 + alen_ + (l - alen_ - 1)) = body)
+    by (rewrite Ef; replace (5 + alen_ + (l - alen_ - 1)) with (lenz [104; l; l; 104] + lenz body) by (lz; unfold l; lia);
+        change 4 with (lenz [104; l; l; 104]); apply slice_mid);
+  assert (NC : nthz f (5 + alen_ + (l - alen_ - 1)) = cs8 body)
+    by (rewrite Ef; rewrite app_assoc; replace (5 + alen_ + (l - alen_ - 1)) with (lenz ([104; l; l; 104] ++ body)) by (lz; unfold l; lia);
+        apply nthz_app2);
+  unfold parse_bp; cbv zeta; rewrite N0; bp_consts; rewrite N1, N2, Z.eqb_refl; cbn [negb];
+  rewrite Lf, (Hudl alen_ eq_refl), (Hsz alen_ eq_refl); cbn [negb]; cbv beta iota; rewrite SL, NC, N4, Z.eqb_refl; cbn [negb].
+
+Theorem parse_bp_var_sec : forall ff alen fc address dir acd dfc data f, 0 <= alen <= 2 -> 0 <= fc < 16 -> addr_in_range alen address ->
+  enc_var alen fc address false dir acd dfc data = Some f ->
+  parse_bp ff alen f = BpPri fc dir dfc acd address (5 + alen) (lenz data) /\ user_data f (5 + alen) (lenz data) = data.
+Proof.
+  intros ff alen fc address dir acd dfc data f H Hfc Hr E.
+  unfold enc_var in E. cbv zeta in E. destruct (1 + alen + lenz data >? 255) eqn:L; [discriminate|].
+  set (c := ctrl fc false dir acd dfc) in *. set (l := 1 + alen + lenz data) in *.
+  pose proof (lenz_nonneg data) as Hd.
+  pose proof (ctrl_bits_pri fc dir acd dfc Hfc) as Hc. cbv zeta in Hc. fold c in Hc. destruct Hc as (C64 & C128 & C32 & C16 & Cfc).
+  pose proof (addr_dec alen address H Hr) as Hdec.
+  assert (Hudl : forall a, l = 1 + a + lenz data -> (ff && (l - a - 1 <? 0)) = false).
+  { intros a Hl. assert (X : l - a - 1 <? 0 = false) by (apply Z.ltb_ge; lia). rewrite X. apply andb_false_r. }
+  assert (Hsz : forall a, l = 1 + a + lenz data -> (l + 6 =? 5 + a + (l - a - 1) + 2) = true) by (intros; apply Z.eqb_eq; lia).
+  alen_cases H; numsimp; unfold addr_octets in E, Hdec; numsimp.
+  - destruct Hdec as [_ ->].
+    assert (Ef : f = [104; l; l; 104] ++ (c :: data) ++ [cs8 (c :: data); 22]) by (injection E; intro X; rewrite <- X; reflexivity). clear E.
+    split.
+    + var_case_sec 0 l c (c :: data) f Ef Hudl Hsz. rewrite C64, C128, C32, C16, Cfc. numsimp. f_equal; unfold l; lia.
+    + unfold user_data. rewrite Ef.
+      change ([104; l; l; 104] ++ (c :: data) ++ [cs8 (c :: data); 22]) with ([104; l; l; 104; c] ++ data ++ [cs8 (c :: data); 22]).
+      change (5 + 0) with (lenz [104; l; l; 104; c]). apply slice_mid.
+  - destruct Hdec as [_ Hdec]. set (a0 := address mod 256) in *.
+    assert (Ef : f = [104; l; l; 104] ++ (c :: a0 :: data) ++ [cs8 (c :: a0 :: data); 22]) by (injection E; intro X; rewrite <- X; reflexivity). clear E.
+    split.
+    + var_case_sec 1 l c (c :: a0 :: data) f Ef Hudl Hsz. rewrite C64, C128, C32, C16, Cfc. numsimp.
+      assert (N5 : nthz f 5 = a0) by (rewrite Ef; reflexivity). rewrite N5, Hdec. f_equal; unfold l; lia.
+    + unfold user_data. rewrite Ef.
+      change ([104; l; l; 104] ++ (c :: a0 :: data) ++ [cs8 (c :: a0 :: data); 22]) with ([104; l; l; 104; c; a0] ++ data ++ [cs8 (c :: a0 :: data); 22]).
+      change (5 + 1) with (lenz [104; l; l; 104; c; a0]). apply slice_mid.
+  - destruct Hdec as [_ Hdec]. set (a0 := address mod 256) in *. set (a1 := (address / 256) mod 256) in *.
+    assert (Ef : f = [104; l; l; 104] ++ (c :: a0 :: a1 :: data) ++ [cs8 (c :: a0 :: a1 :: data); 22]) by (injection E; intro X; rewrite <- X; reflexivity). clear E.
+    split.
+    + var_case_sec 2 l c (c :: a0 :: a1 :: data) f Ef Hudl Hsz. rewrite C64, C128, C32, C16, Cfc. numsimp.
+      assert (N5 : nthz f 5 = a0) by (rewrite Ef; reflexivity). assert (N6 : nthz f 6 = a1) by (rewrite Ef; reflexivity). rewrite N5, N6, Hdec. f_equal; unfold l; lia.
+    + unfold user_data. rewrite Ef.
+      change ([104; l; l; 104] ++ (c :: a0 :: a1 :: data) ++ [cs8 (c :: a0 :: a1 :: data); 22]) with ([104; l; l; 104; c; a0; a1] ++ data ++ [cs8 (c :: a0 :: a1 :: data); 22]).
+      change (5 + 2) with (lenz [104; l; l; 104; c; a0; a1]). apply slice_mid.
+Qed.
+
+(* fixed frame with PRM = 1 at the unbalanced secondary (its own address, not the broadcast address) *)
+Theorem parse_su_fixed : forall ff alen own fc dir fcb fcv, 0 <= alen <= 2 -> 0 <= fc < 16 ->
+  addr_in_range alen own -> own <> broadcast_addr alen ->
+  parse_su ff alen own (enc_fixed alen fc own true dir fcb fcv) = SuOk fc false fcb fcv 0 0.
+Proof.
+  intros ff alen own fc dir fcb fcv H Hfc Hr Hnb.
+  pose proof (ctrl_bits fc dir fcb fcv Hfc) as Hc. cbv zeta in Hc. destruct Hc as (C64 & C32 & C16 & Cfc).
+  pose proof (addr_dec alen own H Hr) as Hd.
+  unfold enc_fixed, addr_octets, broadcast_addr in *. cbv zeta. set (c := ctrl fc true dir fcb fcv) in *.
+  alen_cases H; numsimp; cbn [app].
+  - destruct Hd as [_ ->].
+    match goal with |- parse_su _ _ _ ?f = _ =>
+      assert (N0 : nthz f 0 = 16) by reflexivity; assert (N1 : nthz f 1 = c) by reflexivity;
+      assert (NC : nthz f (2 + 0) = cs8 [c]) by reflexivity; assert (SL : slice f 1 (2 + 0) = [c]) by reflexivity end.
+    unfold parse_su. cbv zeta. rewrite N0. bp_consts. numsimp. cbn [andb negb]. rewrite SL, NC, N1, C64, C32, C16, Cfc, ?Z.eqb_refl. cbn [andb negb]. rewrite ?Z.eqb_refl. cbn [negb]. reflexivity.
+  - destruct Hd as [_ Hd]. rewrite Hd.
+    match goal with |- parse_su _ _ _ ?f = _ =>
+      assert (N0 : nthz f 0 = 16) by reflexivity; assert (N1 : nthz f 1 = c) by reflexivity; assert (N2 : nthz f (1 + 1) = own) by reflexivity;
+      assert (NC : nthz f (2 + 1) = cs8 [c; own]) by reflexivity; assert (SL : slice f 1 (2 + 1) = [c; own]) by reflexivity end.
+    unfold parse_su. cbv zeta. rewrite N0. bp_consts. numsimp. rewrite N2.
+    assert (B : own =? 255 = false) by (apply Z.eqb_neq; exact Hnb). rewrite B, Z.eqb_refl. cbn [andb negb].
+    rewrite SL, NC, N1, C64, C32, C16, Cfc, ?Z.eqb_refl. cbn [andb negb]. rewrite ?Z.eqb_refl. cbn [negb]. reflexivity.
+  - destruct Hd as [_ Hd].
+    match goal with |- parse_su _ _ _ ?f = _ =>
+      assert (N0 : nthz f 0 = 16) by reflexivity; assert (N1 : nthz f 1 = c) by reflexivity;
+      assert (N2 : nthz f (1 + 1) = own mod 256) by reflexivity; assert (N3 : nthz f (1 + 2) = (own / 256) mod 256) by reflexivity;
+      assert (NC : nthz f (2 + 2) = cs8 [c; own mod 256; (own / 256) mod 256]) by reflexivity;
+      assert (SL : slice f 1 (2 + 2) = [c; own mod 256; (own / 256) mod 256]) by reflexivity end.
+    unfold parse_su. cbv zeta. rewrite N0. bp_consts. numsimp. rewrite N2, N3, Hd.
+    assert (B : own =? 65535 = false) by (apply Z.eqb_neq; exact Hnb). rewrite B, Z.eqb_refl. cbn [andb negb].
+    rewrite SL, NC, N1, C64, C32, C16, Cfc, ?Z.eqb_refl. cbn [andb negb]. rewrite ?Z.eqb_refl. cbn [negb]. reflexivity.
+Qed.
